@@ -23,6 +23,14 @@ def to_interrupts(rng, prog, max_n=3):
         n["defaults"] = []
         n["fn"] = "term"
         n["pause_at"] = [1] if rng.random() < 0.8 else []
+        if rng.random() < 0.35:       # the human's answer is a FALSY value ("" / [] / 0 / False)
+            n["answers"] = [rng.choice(sorted(IR.FALSY)) for _ in range(n["ndata"])]
+        if rng.random() < 0.35 and len(n["outputs"]) == n["ndata"]:
+            # the interrupt also emits an ordering signal that a separate node waits for
+            sig = f"sig_{n['name']}"
+            n["outputs"] = n["outputs"] + [sig]
+            n["olabels"] = n["olabels"] + [sig]
+            prog["nodes"].append(IR.func(f"W_{n['name']}", [n["inputs"][0]], [f"w_{n['name']}"], wait_for=[sig]))
     # defaults must stay consistent across consumers of a name
     dpar = {p for n in prog["nodes"] for p in n["defaults"]}
     for n in prog["nodes"]:
@@ -33,12 +41,13 @@ def to_interrupts(rng, prog, max_n=3):
     return [n["name"] for n in chosen]
 
 
-def depends_on(prog, src, node):
-    """node (transitively) consumes an output of src (declared dependencies by name)."""
+def depends_on(prog, src, node, cut=()):
+    """node (transitively) consumes an output of src (declared dependencies by name); a name whose
+    value the caller supplied (`cut`) carries no dependency."""
     byname = {n["name"]: n for n in prog["nodes"]}
     S = {src}
     while True:
-        outs = {o for s in S for o in byname[s]["outputs"]}
+        outs = {o for s in S for o in byname[s]["outputs"]} - set(cut)
         nxt = S | {n["name"] for n in prog["nodes"] if outs & (set(n["inputs"]) | set(n["wait_for"]))}
         if nxt == S:
             return node in S and node != src
@@ -106,7 +115,7 @@ def run(tier, seed):
         pre = []
         if rng.random() < 0.25:      # history variant: an answer supplied before it was asked for
             i = rng.choice(ints)
-            pre = [[o, f"ans.{i}.{o}"] for o in byname[i]["outputs"][: byname[i]["ndata"]]]
+            pre = [[o, IR.answer_text(byname[i], jx)] for jx, o in enumerate(byname[i]["outputs"][: byname[i]["ndata"]])]
         chains.append({"prog": prog, "base": base, "provided": base + pre, "done": False, "pauses": [], "stage": 0, "ints": ints})
         ctx.distinct(IR.struct_hash([prog, base, pre]))
     for script in ([["END"]], [["ask_user"], ["END"]]):
@@ -128,6 +137,7 @@ def run(tier, seed):
         for k, ch in enumerate(live):
             j = gen.job(k + 1, ch["prog"], ch["provided"], mode="async")
             j["base"] = ch["base"]
+            j["literal_keys"] = sorted(o for n in ch["prog"]["nodes"] if n["kind"] == "interrupt" and n["answers"] for o in n["outputs"][: n["ndata"]])
             jobs.append(j)
         res, stats = predict.model_predict(jobs, prop=PID)
         ctx.add_tlc(stats)
@@ -159,7 +169,7 @@ def run(tier, seed):
                     ctx.violation("response-key", wit, f"top-level response key {pz['response_key']} != output {pz['key']}")
                     continue
                 ran = {c["node"] for c in o["calls"]}
-                bad = sorted(n for n in ran if depends_on(ch["prog"], pz["path"], n))
+                bad = sorted(n for n in ran if depends_on(ch["prog"], pz["path"], n, cut=[k2 for k2, _ in ch["provided"]]))
                 if bad and not ch.get("cyclic"):      # in a loop the dependants of the previous turn have run
                     ctx.violation("dependant-ran-before-answer", wit, f"{bad} depend on {pz['path']} and were invoked before the answer")
                     continue
@@ -179,7 +189,7 @@ def run(tier, seed):
                     if ch.get("cyclic") and len(ch["pauses"]) >= 2:
                         continue          # every resume of the stateless chat loop handles one turn: two stages suffice
                     ch["pauses"].append(pz["path"])
-                    ans = [[o2, f"ans.{pz['path']}.{o2}"] for o2 in node["outputs"][: node["ndata"]]]
+                    ans = [[o2, IR.answer_text(node, jx)] for jx, o2 in enumerate(node["outputs"][: node["ndata"]])]
                     have = dict(map(tuple, ch["provided"]))
                     ch["provided"] = ch["provided"] + [a for a in ans if a[0] not in have]
                     ch["done"] = False
